@@ -4,4 +4,9 @@ go 1.23
 
 require layeh.com/radius v0.0.0
 
+require (
+	golang.org/x/crypto v0.13.0 // indirect
+	golang.org/x/text v0.13.0 // indirect
+)
+
 replace layeh.com/radius => /repo
